@@ -13,7 +13,8 @@ Shapes == CASE ShapeSet = "small" -> {<<1>>, <<2>>, <<1, 1>>, <<1, 2>>, <<2, 1>>
             \* holds data when it is merged
             [] ShapeSet = "three" -> {<<1, 3, 1>>, <<1, 3, 2>>, <<2, 3, 1>>, <<3, 1>>, <<1, 3>>, <<1, 2, 1>>}
             \* several partitions smaller than the minimum part size in front of one that writes (MC_MPU_tiny.cfg): left data handed leftwards more than once
-            [] ShapeSet = "tiny" -> {<<1, 1, 2>>, <<1, 1, 1>>, <<1, 1, 1, 1>>, <<1, 1, 1, 2>>}
+            \* ... and partitions without any chunk (leading, trailing, adjacent, all of them)
+            [] ShapeSet = "tiny" -> {<<1, 1, 2>>, <<1, 1, 1>>, <<1, 1, 1, 1>>, <<1, 1, 1, 2>>, <<0, 0, 1>>, <<1, 0, 0, 1>>, <<0, 1, 0>>, <<2, 0>>, <<0, 0>>, <<0, 1, 0, 0, 2>>}
             [] ShapeSet = "four" -> {<<1, 1, 1, 1>>, <<1, 1, 1, 2>>, <<2, 1, 1, 1>>, <<1, 2, 1, 1>>}
             [] ShapeSet = "five" -> {<<1, 1, 1, 1, 1>>}
             \* 6 - 8 partitions: too wide for exhaustive search, explored by simulation (MC_MPU_wide.cfg)
